@@ -68,7 +68,7 @@ def drive(tier):
             if tier == "quick" and n % 3 and not (ne in (20000, 20001, 100000) and rate <= 1e-6):
                 continue
             tweak = tweaks[n % len(tweaks)]
-            flags = n % 3
+            flags = [0, 1, 2, 3, 4, 0x80, 0xff][n % 7]
             tid = R.new_tid()
             box = {}
 
@@ -83,7 +83,7 @@ def drive(tier):
     # filters arriving from the wire: every data length mod 4 up to 70, zero-length data with any hash count
     arrive = []
     for ln in list(range(0, 71)):
-        arrive.append((bytes(ln) if ln % 3 else gen.rbytes(r, ln), r.choice([0, 1, 2, 5, 11, 50]), r.choice(tweaks), r.choice([0, 1, 2])))
+        arrive.append((bytes(ln) if ln % 3 else gen.rbytes(r, ln), r.choice([0, 1, 2, 5, 11, 50]), r.choice(tweaks), r.choice([0, 1, 2, 3, 4, 128, 255])))
     for kfun in (0, 1, 7, 50, 51, 1000, 2 ** 32 - 1):
         arrive.append((b"", kfun, r.choice(tweaks), 1))
     arrive.append((b"\xff", 3, 5, 0))
